@@ -114,6 +114,8 @@ class Analyst(actors.Party):
         start, end = min(a, b), max(a, b)
         if r.random() < 0.1:
             end = start  # zero-width window: a direct read still returns events spanning that instant
+        elif r.random() < 0.05:
+            start, end = end, start  # a window given end-first: query and direct read must still agree
         stmts = []
         scope = []
         for k in range(r.randrange(0, 3)):
@@ -189,7 +191,7 @@ class C12(Check):
         "a bucket holding >=1 event inside the window and either mutating built-ins ran or the program raised midway; "
         "distinct = (backend, op-kind sequence, program digest)"
     )
-    expected_probes = ["query_ok", "query_raised", "query_raised_after_annotation", "scope_events_checked", "scope_count_checked", "scope_nonempty", "mutating_builtin_ran", "restart_clean", "zero_width_query_window"]
+    expected_probes = ["query_ok", "query_raised", "query_raised_after_annotation", "scope_events_checked", "scope_count_checked", "scope_nonempty", "mutating_builtin_ran", "restart_clean", "zero_width_query_window", "reversed_query_window"]
     assumptions = ["the program space is produced by a grammar-based generator (input generation); the simulation contributes the shared mutable store, the abort point and the interleaving with writers"]
     real_components = Check.real_components + ["aw_query parser/interpreter/functions", "aw_transform built-ins"]
 
@@ -272,6 +274,8 @@ class C12(Check):
         st, en = out["window"]
         if st == en:
             pr["zero_width_query_window"] += 1
+        if st > en:
+            pr["reversed_query_window"] += 1
         ret = out["ret"]
         if not isinstance(ret, list) or len(ret) != len(step["scope"]):
             return
